@@ -35,6 +35,9 @@ func TestVerifReplayC07(t *testing.T) {
 		return fmt.Sprintf("n=$(wc -l < %s); echo %s >> %s; exit $(cat %s/st.$((n)))", trace, tag, trace, dir)
 	}
 	cfgText := fmt.Sprintf("tasks:\n  t1:\n    command: ['%s']\n  t2:\n    command: ['%s']\n  tp:\n    command: ['%s']\npipelines:\n  p1:\n    - task: tp\n", mk("t1"), mk("t2"), mk("p1"))
+	if v, _ := sc.Inputs["config.summary"].(bool); v {
+		cfgText += "summary: true\n"
+	}
 	cfgFile := filepath.Join(dir, "tasks.yaml")
 	os.WriteFile(cfgFile, []byte(cfgText), 0o644)
 	fails := func(k int) bool {
@@ -80,9 +83,20 @@ func TestVerifReplayC07(t *testing.T) {
 	}
 	mode := 0
 	args := []string{"taskctl", "--raw", "--quiet", "-c", cfgFile}
+	// deep scenarios carry the value of the --summary flag (a flag of the root command and of `run`)
+	summary := ""
+	if v, ok := sc.Inputs["flag.summary"].(bool); ok {
+		summary = fmt.Sprintf("--summary=%v", v)
+	}
+	if summary != "" && sc.Harness == "VerifC07Root" {
+		args = append(args, summary)
+	}
 	switch sc.Harness {
 	case "VerifC07Run":
 		args = append(args, "run")
+		if summary != "" {
+			args = append(args, summary)
+		}
 	case "VerifC07RunTask":
 		args = append(args, "run", "task")
 		mode = 1
